@@ -403,3 +403,583 @@ def replay_name_case(ctx, prop, obj):
     if not bad:
         print("no failure on the current tree (%s)" % st)
     return bad
+
+
+# ============================================================================================== stateful sequences on ONE object
+# Every case of the plain streams is one operation on FRESH objects, and the name stream looks at the fields and names of
+# results.  A value that an object memoises (pole-split bounds, a cardinality, a last answer ...) and that survives into an
+# object derived from it - by a copy that clones the instance, then edits bits/bounds in place - is invisible to both: all
+# fields of every result are right.  It shows only when the SAME object is queried, then derived from, and the derived object
+# (and the original) is queried again.  A *program* is such a sequence over a heap of objects (object 0 is x):
+#   ("q", i, query)   query = ("cmp", name, partner interval, "l" | "r") | ("max", signed) | ("min", signed) | ("card",)
+#                             | ("eval", n, signed) | ("sol", v) | ("fields",)
+#   ("d", i, step)    append the object step(object i);  step = ("zext", k) ("sext", k) ("agn", k) ("extract", hi, lo)
+#                             ("cast_low", tok) ("un", op) ("binc", op, constant, "l" | "r") ("copy",) ("nameless_copy",)
+#                             ("reverse",) ("reverse2",)
+# Oracle: every answer must be right for the interval the queried object IS - the description (bits, stride, lb, ub) read from
+# its fields when it was created (byte-swapped for a reversed constant) - judged by the brute-force oracles of the plain
+# streams (vsa.oracle / vsa.query_oracle: truth values over the members, exact min/max/cardinality/eval/membership); the
+# description itself must contain the image of x's members under the concrete meaning of the steps and must not change later.
+# A wrong answer is re-asked on a freshly built interval with the same description (fresh partner): right there = the failure
+# depends on the object's HISTORY (signature `…/state-dependent:<last step>`); wrong there too = the plain stream's finding.
+import random as _random
+
+STEP_NAMES = {"un": lambda s: s[1], "binc": lambda s: s[1]}
+
+
+def step_name(step):
+    return STEP_NAMES.get(step[0], lambda s: s[0])(step)
+
+
+def step_show(step, inner):
+    k = step[0]
+    if k in ("zext", "sext", "agn"):
+        return "%s(%d, %s)" % (k, step[1], inner)
+    if k == "extract":
+        return "%s[%d:%d]" % (inner, step[1], step[2])
+    if k == "cast_low":
+        return "cast_low(%s, %d)" % (inner, step[1])
+    if k == "un":
+        return "%s(%s)" % (step[1], inner)
+    if k == "binc":
+        return "%s(%s, %d)" % (step[1], inner, step[2]) if step[3] == "r" else "%s(%d, %s)" % (step[1], step[2], inner)
+    return "%s(%s)" % (k, inner)
+
+
+def step_width(w, step):
+    k = step[0]
+    if k in ("zext", "sext", "agn"):
+        return w + step[1]
+    if k == "extract":
+        return step[1] - step[2] + 1
+    if k == "cast_low":
+        return step[1]
+    return w
+
+
+def step_real(o, step):
+    k = step[0]
+    if k == "zext":
+        return o.zero_extend(o.bits + step[1])
+    if k == "sext":
+        return o.sign_extend(o.bits + step[1])
+    if k == "agn":
+        return o.agnostic_extend(o.bits + step[1])
+    if k == "extract":
+        return o.extract(step[1], step[2])
+    if k == "cast_low":
+        return o.cast_low(step[1])
+    if k == "un":
+        return vsa.UN[step[1]][0](o)
+    if k == "binc":
+        p = vsa.mk((o.bits, 0, step[2], step[2]))
+        return vsa.BIN[step[1]][0](o, p) if step[3] == "r" else vsa.BIN[step[1]][0](p, o)
+    if k == "copy":
+        return o.copy()
+    if k == "nameless_copy":
+        return o.nameless_copy()
+    if k == "reverse":
+        return o.reverse()
+    if k == "reverse2":
+        return o.reverse().reverse()
+    raise ValueError(k)
+
+
+NOMAP = "nomap"     # a step without a concrete meaning of its own (agnostic_extend): only the description is judged
+
+
+def step_conc(v, w, step):
+    """concrete meaning of a step on a member v of a w-bit object; None = exempt (division by zero), NOMAP = none"""
+    k = step[0]
+    if k == "zext":
+        return v
+    if k == "sext":
+        return sgn(v, w) & M(w + step[1])
+    if k == "agn":
+        return NOMAP
+    if k == "extract":
+        return (v >> step[2]) & M(step[1] - step[2] + 1)
+    if k == "cast_low":
+        return v & M(step[1])
+    if k == "un":
+        return vsa.UN[step[1]][1](v, w)
+    if k == "binc":
+        return vsa.BIN[step[1]][1](v, step[2], w) if step[3] == "r" else vsa.BIN[step[1]][1](step[2], v, w)
+    if k == "reverse":
+        return int.from_bytes(v.to_bytes(w // 8, "big"), "little")
+    return v          # copy, nameless_copy, reverse2
+
+
+def describe(o):
+    """the interval an object IS, read from its fields: (bits, stride, lb, ub) | 'bottom:<bits>' | None (a reversed
+    non-constant: its meaning is exempt from the property)"""
+    t = vsa.tup(o)
+    if not isinstance(t, tuple):
+        return t if isinstance(t, str) and t.startswith("bottom") else None
+    if getattr(o, "reversed", False):
+        if t[1] == 0 and t[2] == t[3] and t[0] % 8 == 0:
+            v = int.from_bytes(t[2].to_bytes(t[0] // 8, "big"), "little")
+            return (t[0], 0, v, v)
+        return None
+    return t
+
+
+def query_name(q):
+    return q[1] if q[0] == "cmp" else {"card": "cardinality", "sol": "solution"}.get(q[0], q[0])
+
+
+def query_show(q, who):
+    k = q[0]
+    if k == "cmp":
+        return "%s(%s, %s)" % ((q[1], who, vsa.show(q[2])) if q[3] == "l" else (q[1], vsa.show(q[2]), who))
+    if k in ("max", "min"):
+        return "%s.%s(signed=%s)" % (who, k, bool(q[1]))
+    if k == "card":
+        return "%s.cardinality" % who
+    if k == "eval":
+        return "%s.eval(%d, signed=%s)" % (who, q[1], bool(q[2]))
+    if k == "sol":
+        return "%s.solution(%d)" % (who, q[1])
+    return "fields of %s" % who
+
+
+def query_real(o, q, partner):
+    k = q[0]
+    if k == "cmp":
+        f = vsa.CMP[q[1]][0]
+        p = partner(q[2])
+        return vsa.call(f, o, p) if q[3] == "l" else vsa.call(f, p, o)
+    if k in ("max", "min"):
+        return vsa.call(vsa.QUERIES[k], o, q[1])
+    if k == "card":
+        return vsa.call(vsa.QUERIES["cardinality"], o)
+    if k == "eval":
+        return vsa.call(vsa.QUERIES["eval"], o, q[1], q[2])
+    if k == "sol":
+        return vsa.call(vsa.QUERIES["solution"], o, q[1])
+    if k == "fields":
+        return describe(o)
+    raise ValueError(k)
+
+
+def query_judge(q, t, r, seed, limit):
+    """-> None | (kind, detail): the answer r of query q against the members of the description t"""
+    k = q[0]
+    if k == "cmp":
+        return vsa.oracle(q[1], [t, q[2]] if q[3] == "l" else [q[2], t], r, _random.Random(seed), limit=limit)
+    if k in ("max", "min"):
+        return vsa.query_oracle(k, [t, q[1]], r)
+    if k == "card":
+        return vsa.query_oracle("cardinality", [t], r)
+    if k == "eval":
+        return vsa.query_oracle("eval", [t, q[1], q[2]], r)
+    if k == "sol":
+        return vsa.query_oracle("solution", [t, q[1]], r)
+    if k == "fields":
+        return None if r == t else ("changed", "the object was %s when it was created and is %s now" % (
+            vsa.show(t), vsa.show(r) if r is not None else "a reversed non-constant"))
+    raise ValueError(k)
+
+
+def chain_of(par, stp, i):
+    out = []
+    while par[i] is not None:
+        out.append(stp[i])
+        i = par[i]
+    return out[::-1]
+
+
+def fresh_chain(anno, chain):
+    """the same derivations on fresh objects, nothing queried in between -> description | 'err:<Type>'"""
+    try:
+        o = vsa.mk(anno)
+        for s in chain:
+            o = step_real(o, s)
+        return describe(o)
+    except RecursionError:
+        return "err:RecursionError"
+    except Exception as e:  # noqa
+        return "err:" + type(e).__name__
+
+
+def run_program(anno, prog, limit=12, only_last=False):
+    """execute a program on the real objects -> (failures, stats).  A failure is a dict(k = index of the instruction,
+    q, kind, detail, observed, state_dep, chain, desc).  only_last: judge only the last instruction (used by the shrinker)."""
+    import collections
+    objs = [vsa.mk(anno, name="n0")]
+    desc = [describe(objs[0])]
+    img = [set(vsa.sample_members(anno, _random.Random(1), limit))]
+    width = [anno[0]]
+    par, stp = [None], [None]
+    partners = {}
+    stats = collections.Counter()
+    fails = []
+
+    def partner(pt):
+        if pt not in partners:
+            partners[pt] = vsa.mk(pt)
+        return partners[pt]
+
+    for k, ins in enumerate(prog):
+        last = k == len(prog) - 1
+        if ins[0] == "d":
+            _, i, step = ins
+            par.append(i); stp.append(step)
+            width.append(step_width(width[i], step))
+            if objs[i] is None:
+                objs.append(None); desc.append(None); img.append(None)
+                continue
+            try:
+                o = step_real(objs[i], step)
+                t = describe(o)
+                err = None
+            except RecursionError:
+                o, t, err = None, None, "err:RecursionError"
+            except Exception as e:  # noqa
+                o, t, err = None, None, "err:" + type(e).__name__
+            vals = None
+            if img[i] is not None:
+                vals = set()
+                for v in img[i]:
+                    z = step_conc(v, width[i], step)
+                    if z is NOMAP:
+                        vals = None
+                        break
+                    if z is not None:
+                        vals.add(z)
+            bad = None
+            if err:
+                bad = (err, "the derivation raises " + err)
+            elif t is None:
+                pass        # a reversed non-constant: exempt
+            elif isinstance(t, str):
+                if vals:
+                    bad = ("unsound", "the result is empty, member %d of x gives %d" % (min(img[0]), min(vals)))
+            elif not vsa.wf(t) or t[0] != width[-1]:
+                bad = ("malformed", "the result %s is not a well-formed interval of %d bits" % (t, width[-1]))
+            elif vals is not None and any(not vsa.member(t, z) for z in vals):
+                bad = ("unsound", "value %d of the derivation is not a member of %s" % (min(z for z in vals if not vsa.member(t, z)), vsa.show(t)))
+            stats["derivations"] += 1
+            if (bad or (only_last is False and stats["derivations"] % 4 == 0)) and not (only_last and not last):
+                ft = fresh_chain(anno, chain_of(par, stp, len(par) - 1))
+                same = (ft == (err or t))
+                if not same:
+                    stats["derivation-differs-from-fresh"] += 1
+                if bad and not same:
+                    fails.append(dict(k=k, q=("derive",) + tuple(step), kind=bad[0], detail=bad[1] + "; the same derivations on fresh objects give %s" % (
+                        vsa.show(ft) if ft is not None else ft), observed=err or t, state_dep=True, chain=chain_of(par, stp, len(par) - 1), desc=desc[i]))
+                elif bad:
+                    stats["skip:derivation-unsound-on-fresh-objects-too"] += 1
+            if bad or t is None or isinstance(t, str):
+                objs.append(None); desc.append(None); img.append(None)
+            else:
+                objs.append(o); desc.append(t); img.append(vals)
+            continue
+        _, i, q = ins
+        if objs[i] is None:
+            continue
+        if only_last and not last:
+            query_real(objs[i], q, partner)
+            continue
+        t = desc[i]
+        r = query_real(objs[i], q, partner)
+        stats["queries"] += 1
+        bad = query_judge(q, t, r, k, limit)
+        if not bad:
+            continue
+        # the same question to a freshly built interval with the same description (fresh partner)
+        r2 = query_real(vsa.mk(t), q, vsa.mk)
+        bad2 = query_judge(q, t, r2, k, limit) if q[0] != "fields" else None
+        flagged = bool(getattr(objs[i], "reversed", False))       # a constant carrying the delayed-reversal flag: not a matter of history
+        fails.append(dict(k=k, q=q, kind=bad[0], detail=bad[1], observed=r, state_dep=bad2 is None and not flagged, fresh=r2,
+                          chain=chain_of(par, stp, i), desc=t, flagged=flagged))
+    return fails, stats
+
+
+def seq_signature(f):
+    """finding signature of a failure of a sequence.  Wrong on a fresh interval too: the plain stream's signature of the
+    comparison (None for the exact queries - they are C22's subject and its plain stream reports them).  Otherwise
+    property / query / kind / state-dependent:<the step that produced the queried object>."""
+    q = f["q"]
+    if f.get("flagged"):
+        return "C21/%s/%s/reversed-constant-operand" % (query_name(q), f["kind"])
+    if not f["state_dep"]:
+        if q[0] == "cmp":
+            return vsa.classify(q[1], f["kind"], [f["desc"], q[2]] if q[3] == "l" else [q[2], f["desc"]])
+        return None
+    where = step_name(f["chain"][-1]) if f["chain"] else "operand-itself"
+    if q[0] == "derive":
+        return "C21/%s/%s/state-dependent:derived-from-%s" % (step_name(q[1:]), f["kind"],
+                                                               step_name(f["chain"][-2]) if len(f["chain"]) > 1 else "operand-itself")
+    return "C21/%s/%s/state-dependent:%s" % (query_name(q), f["kind"], where)
+
+
+# ---------------------------------------------------------------------------------------------- generation
+def battery(i, w, rng, widths=(), pool=None, light=False):
+    """the queries put to object i (w bits): all ten comparisons, both orders, against a few constants (poles of this and of
+    the ancestors' widths) and one interval; min/max signed and unsigned; cardinality; eval; membership; the fields"""
+    half = 1 << (w - 1)
+    consts = {0, 1, M(w), half, half - 1, rng.randrange(1 << w)}
+    for a in widths:
+        if a < w:
+            consts |= {1 << (a - 1), M(a), 1 << a}
+    consts = sorted(c & M(w) for c in consts)
+    chosen = {0} | set(rng.sample(consts, min(len(consts), 1 if light else 3)))
+    parts = [(w, 0, c, c) for c in sorted(chosen)]
+    if not light:
+        parts.append(rng.choice(pool) if pool else vsa.rand_si(rng, w))
+    qs = []
+    for p in parts:
+        for name in vsa.CMP:
+            qs.append(("cmp", name, p, "l"))
+            qs.append(("cmp", name, p, "r"))
+    for sg in (0, 1):
+        qs += [("max", sg), ("min", sg), ("eval", rng.choice([1, 2, 5, 300]), sg)]
+    qs += [("card",), ("sol", rng.choice(consts)), ("sol", rng.randrange(1 << w)), ("fields",)]
+    rng.shuffle(qs)
+    return [("q", i, q) for q in qs]
+
+
+def steps_for(w, rng, anno=None):
+    """every unary operation and width change applicable to a w-bit object (parameters: the boundary values and one random)"""
+    out = [("un", op) for op in vsa.UN] + [("copy",), ("nameless_copy",), ("reverse2",)]
+    for k in sorted({1, 2, w, rng.choice([3, 5, 8, 16, 32])}):
+        out += [("zext", k), ("sext", k), ("agn", k)]
+    ex = {(w - 1, 0), (0, 0), (w - 1, w - 1)}
+    if w >= 2:
+        ex |= {(w - 1, 1), (w - 2, 0)}
+        lo = rng.randrange(w); ex.add((rng.randrange(lo, w), lo))
+    out += [("extract", hi, lo) for hi, lo in sorted(ex)]
+    out += [("cast_low", tok) for tok in sorted({1, w, max(1, w - 1), rng.randrange(1, w + 1)})]
+    for op in ("shl", "lshr", "ashr"):
+        for c in sorted({1, max(1, w - 1), rng.randrange(0, w + 1)}):
+            out.append(("binc", op, c & M(w), "r"))
+    for op in rng.sample(["add", "sub", "mul", "and", "or", "xor", "udiv", "mod"], 3):
+        c = rng.choice([1, M(w), 1 << (w - 1), rng.randrange(1, 1 << w) if w > 1 else 1]) & M(w)
+        out.append(("binc", op, c or 1, rng.choice("lr")))
+    if w % 8 == 0 and w > 8 and anno is not None and anno[1] == 0:
+        out.append(("reverse",))
+    return out
+
+
+def gen_programs(ctx):
+    """-> list of (anno, prog, stream)"""
+    rng = ctx.rng
+    out = []
+
+    def fan(x, stream, nsteps=None):
+        # query x; then every derivation of x, each queried at once; the fields of x after each; x again at the end
+        w = x[0]
+        pool = vsa.all_sis(w) if w <= 4 else None
+        prog = battery(0, w, rng, pool=pool)
+        steps = steps_for(w, rng, x)
+        if nsteps is not None and len(steps) > nsteps:
+            steps = rng.sample(steps, nsteps) + [s for s in steps if s == ("reverse",)]
+        n = 0
+        for s in steps:
+            n += 1
+            wn = step_width(w, s)
+            prog.append(("d", 0, s))
+            prog += battery(n, wn, rng, widths=(w,), pool=vsa.all_sis(wn) if wn <= 3 else None, light=rng.random() < 0.5)
+            prog.append(("q", 0, ("fields",)))
+        prog += battery(0, w, rng, pool=pool)
+        out.append((x, prog, stream))
+
+    def deep(x, stream):
+        # two levels: query x, derive y, query y, derive z from y, query z, y and x again; a sibling derived from x last
+        w = x[0]
+        s1 = rng.choice(steps_for(w, rng, x))
+        w1 = step_width(w, s1)
+        s2 = rng.choice(steps_for(w1, rng))
+        w2 = step_width(w1, s2)
+        s3 = rng.choice(steps_for(w, rng, x))
+        w3 = step_width(w, s3)
+        first = battery(0, w, rng) if rng.random() < 0.6 else battery(0, w, rng)[:rng.randrange(1, 4)]
+        prog = first + [("d", 0, s1)] + battery(1, w1, rng, widths=(w,), light=rng.random() < 0.3) + [("d", 1, s2)] + \
+            battery(2, w2, rng, widths=(w, w1)) + battery(1, w1, rng, widths=(w,), light=True) + battery(0, w, rng, light=True) + \
+            [("d", 0, s3)] + battery(3, w3, rng, widths=(w,), light=True)
+        out.append((x, prog, stream))
+
+    for w in (1, 2):
+        for x in vsa.all_sis(w):
+            fan(x, "seq-exh")
+    for w, n in ((3, ctx.pick(12, 120)), (4, ctx.pick(10, 120))):
+        pool = vsa.all_sis(w)
+        for _ in range(n):
+            fan(rng.choice(pool), "seq-small", nsteps=ctx.pick(16, 99))
+    for _ in range(ctx.pick(30, 400)):
+        w = rng.choice(vsa.WIDE_WIDTHS)
+        x = vsa.rand_si(rng, w)
+        if rng.random() < 0.4:      # few members around a pole: the image of every member is checked
+            s = rng.choice([1, 2, 3, 4, 16]); n = rng.randrange(1, 9)
+            lb = (rng.choice([0, 1 << (w - 1)]) - rng.randrange(0, n + 1) * s) & M(w)
+            x = vsa.norm(w, s, lb, lb + n * s)
+        fan(x, "seq-wide", nsteps=ctx.pick(12, 99))
+    for _ in range(ctx.pick(8, 80)):      # constants of whole bytes: the only intervals whose byte reversal is not exempt
+        w = rng.choice([16, 16, 24, 32, 64])
+        v = rng.choice([1, 0xFF, 1 << (w - 1), M(w) - 1, rng.randrange(1 << w), 0xFF << (w - 8)]) & M(w)
+        fan((w, 0, v, v), "seq-const", nsteps=ctx.pick(10, 99))
+    for _ in range(ctx.pick(250, 4000)):
+        w = rng.choice([1, 2, 2, 3, 3, 4, 5, 8, 8, 16, 32])
+        x = rng.choice(vsa.all_sis(w)) if w <= 4 else vsa.rand_si(rng, w)
+        deep(x, "seq-deep")
+    return out
+
+
+# ---------------------------------------------------------------------------------------------- shrinking
+def _reindex(prog, keep):
+    """the sub-program of the instructions `keep` (indices); a derivation whose parent is dropped drops out with its queries"""
+    new = {0: 0}
+    out = []
+    obj = n = 0
+    for k, ins in enumerate(prog):
+        if ins[0] == "d":
+            obj += 1
+            if k in keep and ins[1] in new:
+                n += 1
+                new[obj] = n
+                out.append(("d", new[ins[1]], ins[2]))
+        elif k in keep and ins[1] in new:
+            out.append(("q", new[ins[1]], ins[2]))
+    return out
+
+
+def _still(anno, prog, sig):
+    if not prog:
+        return False
+    fails, _ = run_program(anno, prog, only_last=True)
+    return any(f["k"] == len(prog) - 1 and seq_signature(f) == sig for f in fails)
+
+
+def shrink_program(anno, prog, k, sig):
+    """a shorter program ending in the failing instruction k with the same signature: the ancestors' instructions only,
+    then a single earlier query if one suffices, else one instruction dropped at a time"""
+    prog = prog[:k + 1]
+    # objects: ancestors of the object of the last instruction
+    parent = {0: None}
+    n = 0
+    for ins in prog:
+        if ins[0] == "d":
+            n += 1
+            parent[n] = ins[1]
+    target = prog[-1][1] if prog[-1][0] == "q" else n
+    anc = set()
+    i = target
+    while i is not None:
+        anc.add(i)
+        i = parent[i]
+    keep, n = set(), 0
+    for j, ins in enumerate(prog):
+        if ins[0] == "d":
+            n += 1
+            if n in anc:
+                keep.add(j)
+        elif ins[1] in anc:
+            keep.add(j)
+    keep.add(len(prog) - 1)
+    cand = _reindex(prog, keep)
+    if _still(anno, cand, sig):
+        prog = cand
+    elif len(prog) > 600:
+        return prog
+    ds = [j for j, ins in enumerate(prog[:-1]) if ins[0] == "d"]
+    qs = [j for j, ins in enumerate(prog[:-1]) if ins[0] == "q"]
+    # no earlier query at all / one earlier query
+    for sub in [()] + [(j,) for j in qs]:
+        keep = set(ds) | set(sub) | {len(prog) - 1}
+        cand = _reindex(prog, keep)
+        if _still(anno, cand, sig):
+            prog = cand
+            break
+    changed = True
+    while changed and len(prog) <= 400:
+        changed = False
+        for j in range(len(prog) - 2, -1, -1):
+            cand = _reindex(prog, set(range(len(prog))) - {j})
+            if cand and cand[-1][0] == prog[-1][0] and cand[-1][2] == prog[-1][2] and len(cand) < len(prog) and _still(anno, cand, sig):
+                prog = cand
+                changed = True
+                break
+    return prog
+
+
+def program_show(anno, prog):
+    names = ["x"]
+    lines = []
+    for ins in prog:
+        if ins[0] == "d":
+            names.append(step_show(ins[2], names[ins[1]]))
+            lines.append("derive " + names[-1])
+        else:
+            lines.append(query_show(ins[2], names[ins[1]]))
+    return "x = %s; " % vsa.show(anno) + "; then ".join(lines)
+
+
+# ---------------------------------------------------------------------------------------------- the stream
+def run_seq_stream(ctx, prop="C21"):
+    """stateful sequences on one object (oracle only: the Lean model is a function of the fields, it has no hidden state)"""
+    import collections
+    progs = gen_programs(ctx)
+    found = collections.defaultdict(list)
+    stats = collections.Counter()
+    streams = collections.Counter()
+    skipped = collections.Counter()
+    for anno, prog, stream in progs:
+        fails, st = run_program(anno, prog)
+        stats.update(st)
+        streams[stream] += 1
+        ctx.count(st["queries"] + st["derivations"])
+        ctx.distinct(("seq", anno, len(prog), str(prog[-1])))
+        for f in fails:
+            sig = seq_signature(f)
+            if sig is None:
+                skipped["C22/%s/%s (wrong on a fresh interval too: C22's plain stream)" % (query_name(f["q"]), f["kind"])] += 1
+                continue
+            found[sig].append((anno, prog, f))
+    for sig, lst in sorted(found.items()):
+        anno, prog, f = min(lst, key=lambda c: (c[0][0] * 1000 + min(vsa.card(c[0]), 999), len(c[2]["chain"]), c[2]["k"], str(c[0])))
+        if f["state_dep"]:
+            small = shrink_program(anno, prog, f["k"], sig)
+        else:       # not a matter of history: the derivations of the queried object and the query
+            small = shrink_program(anno, [i for i in prog[:f["k"]] if i[0] == "d"] + [prog[f["k"]]], f["k"], sig)
+            small = [i for i in small[:-1] if i[0] == "d"] + [small[-1]]
+        fl, _ = run_program(anno, small)
+        g = next((h for h in fl if h["k"] == len(small) - 1 and seq_signature(h) == sig), None)
+        if g is None:               # the shrunk program must fail the same way, else keep the original
+            small, g = prog[:f["k"] + 1], f
+        what = "%s: the last answer is %s - %s; the object is %s%s  [%d case(s) of this class in this run]" % (
+            program_show(anno, small), g["observed"] if not isinstance(g["observed"], tuple) else vsa.show(g["observed"]), g["detail"],
+            vsa.show(g["desc"]) if g["desc"] is not None else "?",
+            "; a freshly built interval with the same fields answers %s" % (g.get("fresh"),) if g["state_dep"] and "fresh" in g else "", len(lst))
+        ctx.violation(sig, what, {"seq_case": True, "anno": list(anno), "prog": small, "kind": g["kind"], "detail": g["detail"],
+                                  "observed": g["observed"]})
+    ctx.cov["sequence_stream"] = {
+        "programs": len(progs), "streams": dict(streams), "status": dict(stats), "not_reported": dict(skipped),
+        "rule": "program = query x (ten comparisons both orders against pole constants and an interval, min/max signed/unsigned, cardinality, "
+                "eval, membership, fields) -> derive (every unary operation and width change: zero/sign/agnostic extension, extract, cast_low, "
+                "neg, not, shifts and arithmetic by constants, copy, nameless_copy, reverse) -> query the derived object and x again; the same two "
+                "levels deep; every answer judged against the members of the interval the object's fields describe"}
+    fc = ctx.cov.setdefault("failing_classes_seen", {})
+    for k, v in found.items():
+        fc[k] = fc.get(k, 0) + len(v)
+    return found
+
+
+def replay_seq_case(ctx, prop, obj):
+    r = obj["replay"]
+    anno = tuple(r["anno"])
+    prog = [_tuplify(i) for i in r["prog"]]
+    print("case:", program_show(anno, prog))
+    fails, _ = run_program(anno, prog, limit=64)
+    bad = 0
+    for f in fails:
+        sig = seq_signature(f)
+        if sig is None:
+            continue
+        print("VIOLATION property=%s replay=(given)" % prop)
+        print("failure: instruction %d %s answers %s: %s - %s  signature: %s" % (
+            f["k"], f["q"], f["observed"], f["kind"], f["detail"], sig))
+        bad = 1
+    if not bad:
+        print("no failure on the current tree")
+    return bad
